@@ -5,8 +5,8 @@
 
     * siblings (libraries; definitions of a library; ports, instances, cables of a definition) carry
       pairwise different EDIF identifiers ignoring letter case and pairwise different names;
-    * an instance that has a reference references a cell declared in the netlist BEFORE the cell it
-      stands in (no forward reference, no cell instantiating itself);
+    * EVERY instance has a reference, and it references a cell declared in the netlist BEFORE the cell
+      it stands in (no instance without reference, no forward reference, no cell instantiating itself);
     * every cable has at least one wire; every pin on a wire is an existing bit of a port of the
       enclosing cell, or an existing bit of a port of the cell referenced by an instance of the
       enclosing cell (bit 0 for a non-array port);
@@ -37,10 +37,10 @@ def defAt (libs : List CLib) (r : Nat × Nat) : Option CDef := (libs[r.1]?).bind
 /-- position `r` precedes the cell at (L, D) in the file -/
 def PrecedesB (L D : Nat) (r : Nat × Nat) : Bool := decide (r.1 < L) || (decide (r.1 = L) && decide (r.2 < D))
 
-/-- an instance of the cell at (L, D): if it has a reference, it is a declared cell that precedes -/
+/-- an instance of the cell at (L, D): it has a reference, to a declared cell that precedes -/
 def InstRefOK (libs : List CLib) (L D : Nat) (i : CInst) : Bool :=
   match i.ref with
-  | none => true
+  | none => false
   | some r => PrecedesB L D r && (defAt libs r).isSome
 
 def PortBitOK (ps : List CPort) (pi bi : Nat) : Bool :=
